@@ -9,6 +9,14 @@ COMMON_NOTE = ("Trusted base: rustc/cargo 1.80.1, serde/serde_json, syn, python 
                "see DESIGN.md section 4 'Outside' for what the bound leaves open.")
 
 CHECKS = {
+ "C11": dict(
+  text="Bounded exhaustive enumeration of schemas yielding string-convertible types (every string-ish leaf as definition/alias, and every ordered pair and triple of an alternative menu as an untagged string enum, i.e. all order permutations); every string of the instance universe is sent through Deserialize and through each of FromStr / TryFrom<&str> / TryFrom<&String> / TryFrom<String> / Display that the emitted code implements, on the compiled type; routes must agree in success and value, Display must equal the serialized string.",
+  design="DESIGN.md 4/C11", technique="bounded exhaustive enumeration of schemas x probe strings on compiled generated code, differential oracle between conversion routes",
+  note="Only conversions the emitted code implements are probed (found by a syn scan of impl headers). " + COMMON_NOTE),
+ "C13": dict(
+  text="Exhaustive decision table: crate configuration {absent,*,!,version} x unknown-crate policy x 62 (requirement, version) pairs on both sides of every semver operator x rename x type parameters x use site, plus 12 malformed-extension variants x configuration x policy; each cell converted by the real typify-impl and compared with a reference decision function written from the README.",
+  design="DESIGN.md 4/C13", technique="exhaustive decision-table enumeration on the implementation against a reference decision function",
+  note="The expected 'satisfies' column is hand-written from Cargo's documented semantics and cross-checked against the semver crate (disagreement = machinery error). " + COMMON_NOTE),
  "C02": dict(
   text="Bounded exhaustive enumeration of faithful-fragment schemas (leaf menu x composite menu x context menu: depth-2, depth-3 and pair products) each converted by the real typify-impl, compiled by rustc and run on every element of its compositional instance universe (every member subset, boundary lengths in 1/2/4-byte scalars, every other JSON type, cross-branch mixtures); every instance the independent Draft-7 oracle calls valid must deserialize.",
   design="DESIGN.md 4/C02", technique="bounded exhaustive enumeration of schemas x instance universes, executed on compiled generated code, judged by an independent JSON Schema validator",
